@@ -10,7 +10,7 @@ use std::collections::BTreeMap;
 #[derive(Clone, Debug, PartialEq)]
 enum Expect {
     /// exactly one answer: Some(n) = determined, None = stays free
-    One(Vec<Option<i64>>),
+    One(Vec<Result<i64, VarId>>),
     NoAnswer,
     /// the property does not decide (aliased unknown in a pending constraint): soundness only
     Undecided,
@@ -25,7 +25,46 @@ fn val(t: &Term, known: &BTreeMap<VarId, i64>) -> Option<i64> {
 }
 
 /// Reference: fixpoint of "two operands known => third determined / checked".
-fn reference(nq: usize, goals: &[Goal]) -> Expect {
+/// representative of the class of `v` under the `var == var` goals
+fn find(parent: &BTreeMap<VarId, VarId>, mut v: VarId) -> VarId {
+    while let Some(p) = parent.get(&v) {
+        if *p == v {
+            break;
+        }
+        v = *p;
+    }
+    v
+}
+
+fn rewrite(t: &Term, parent: &BTreeMap<VarId, VarId>) -> Term {
+    match t {
+        Term::Var(v) => Term::Var(find(parent, *v)),
+        t => t.clone(),
+    }
+}
+
+fn reference(nq: usize, goals_in: &[Goal]) -> Expect {
+    // aliasing `x == y`: work on class representatives
+    let mut parent: BTreeMap<VarId, VarId> = BTreeMap::new();
+    for g in goals_in {
+        if let Goal::Eq(Term::Var(a), Term::Var(b)) = g {
+            let (ra, rb) = (find(&parent, *a), find(&parent, *b));
+            if ra != rb {
+                parent.insert(ra.max(rb), ra.min(rb));
+            }
+        }
+    }
+    let goals_v: Vec<Goal> = goals_in
+        .iter()
+        .filter(|g| !matches!(g, Goal::Eq(Term::Var(_), Term::Var(_))))
+        .map(|g| match g {
+            Goal::Eq(a, b) => Goal::Eq(rewrite(a, &parent), rewrite(b, &parent)),
+            Goal::Z(ZGoal::Plus(a, b, c)) => Goal::Z(ZGoal::Plus(rewrite(a, &parent), rewrite(b, &parent), rewrite(c, &parent))),
+            Goal::Z(ZGoal::Times(a, b, c)) => Goal::Z(ZGoal::Times(rewrite(a, &parent), rewrite(b, &parent), rewrite(c, &parent))),
+            g => g.clone(),
+        })
+        .collect();
+    let goals = &goals_v[..];
     let mut known: BTreeMap<VarId, i64> = BTreeMap::new();
     for g in goals {
         if let Goal::Eq(Term::Var(v), Term::Int(n)) = g {
@@ -115,7 +154,8 @@ fn reference(nq: usize, goals: &[Goal]) -> Expect {
     if undecided {
         return Expect::Undecided;
     }
-    Expect::One((0..nq).map(|v| known.get(&(v as VarId)).copied()).collect())
+    // undetermined variables are reported by class: Err(representative)
+    Expect::One((0..nq).map(|v| { let r = find(&parent, v as VarId); match known.get(&r) { Some(n) => Ok(*n), None => Err(r) } }).collect())
 }
 
 fn gen_goals(s: &mut Source) -> (usize, Vec<Goal>) {
@@ -134,6 +174,14 @@ fn gen_goals(s: &mut Source) -> (usize, Vec<Goal>) {
     for _ in 0..nc {
         let (a, b, c) = (operand(s), operand(s), operand(s));
         goals.push(if s.flag(128) { Goal::Z(ZGoal::Times(a, b, c)) } else { Goal::Z(ZGoal::Plus(a, b, c)) });
+    }
+    // aliasing between variables (either orientation)
+    let na = s.weighted(&[5, 3, 1]);
+    for _ in 0..na {
+        let (a, b) = (s.below(nq) as VarId, s.below(nq) as VarId);
+        if a != b {
+            goals.push(Goal::Eq(Term::Var(a), Term::Var(b)));
+        }
     }
     let nb = s.below(nq + 2);
     for _ in 0..nb {
@@ -209,7 +257,7 @@ pub fn eval(nq: usize, goals: &[Goal], ctx: &Ctx) -> CaseInfo {
         info.class("zero-operand-in-timesz");
     }
     match &expect {
-        Expect::One(v) if v.iter().any(|x| x.is_none()) => info.class("some-variable-stays-free"),
+        Expect::One(v) if v.iter().any(|x| x.is_err()) => info.class("some-variable-stays-free"),
         Expect::One(_) => info.class("fully-determined"),
         Expect::NoAnswer => info.class("inconsistent"),
         Expect::Undecided => info.class("undecided-aliasing(soundness-only)"),
@@ -247,14 +295,21 @@ pub fn eval(nq: usize, goals: &[Goal], ctx: &Ctx) -> CaseInfo {
             }
         }
         Expect::One(vals) => {
-            let mut next = 0;
+            // free variables: one reified variable per class, numbered by first occurrence
+            let mut seen: Vec<VarId> = vec![];
             let want: Vec<Term> = vals
                 .iter()
                 .map(|v| match v {
-                    Some(n) => Term::Int(*n),
-                    None => {
-                        next += 1;
-                        Term::Var(next - 1)
+                    Ok(n) => Term::Int(*n),
+                    Err(r) => {
+                        let i = match seen.iter().position(|x| x == r) {
+                            Some(i) => i,
+                            None => {
+                                seen.push(*r);
+                                seen.len() - 1
+                            }
+                        };
+                        Term::Var(i as VarId)
                     }
                 })
                 .collect();
